@@ -561,6 +561,9 @@ class Interp:
             cv = self.ctx.extra.get(("const", u))
             if cv is not None:
                 return cv
+            cv = self.assoc_const(fr.crate, op)
+            if cv is not None:
+                return cv
             raise Undecided("unevaluated const %s" % op.get("text"))
         if t["k"] == "tuple" and not t["elems"]:
             return vunit()
@@ -1114,6 +1117,55 @@ class Interp:
                     return c2, b
         return None
 
+    @staticmethod
+    def _impls_for_type(c2, tr, t):
+        """impls of workspace trait `tr` in crate c2 for the concrete type t (a workspace ADT, or a
+        primitive integer / bool such as the `impl CounterWord for u64` a macro writes out)."""
+        if t["k"] == "adt":
+            return [im for im in c2.impls if im.get("trait") == tr and im.get("self_adt") == t["adt"]]
+        if t["k"] in ("uint", "int", "bool"):
+            nm = t.get("name", "bool")
+            return [im for im in c2.impls if im.get("trait") == tr and "self_adt" not in im and im.get("self") == nm]
+        return []
+
+    def assoc_const(self, cr, op):
+        """`<T as Trait>::CONST` of a workspace trait, T bound by the generic environment to a
+        workspace type whose impl fixes the constant to an integer / bool (static dispatch)."""
+        u = op["uneval"]
+        targs = [a["ty"] for a in op.get("uneval_args", []) if "ty" in a]
+        if "::" not in u or not targs:
+            return None
+        tr, name = u.rsplit("::", 1)
+        tcr, tix = cr, targs[0]
+        for _ in range(4):
+            t = tcr.types[tix]
+            if t["k"] != "param":
+                break
+            b = self.tyenv[-1].get(t["name"])
+            if b is None:
+                return None
+            tcr, tix = self.facts.crates[b[0]], b[1]
+            if tcr.types[tix]["k"] == "param" and tcr.types[tix]["name"] == t["name"]:
+                return None
+        cands = self._impls_for_type(cr, tr, tcr.types[tix])
+        if len(cands) != 1:
+            return None
+        for it in cands[0].get("items", []):
+            if it["name"] == name and "int" in it:
+                ct = cr.types[it["ty"]]
+                v = int(it["int"])
+                if ct["k"] == "bool":
+                    return vbool(bool(v))
+                if ct["k"] in ("uint", "int"):
+                    if ct["name"] in ("usize", "isize"):
+                        if ct["name"] == "isize" and v >= 1 << 63:
+                            v -= 1 << 64
+                        return vsize(v)
+                    if ct["name"] == "u8":
+                        return vbytes(T.itobytes("ne", T.iconst(8, v)))
+                    return vint(T.iconst(int(ct["name"][1:]), v))
+        return None
+
     def find_body_by_self_type(self, cr, fn):
         """`<T as Trait>::method` of a workspace trait with T a generic parameter that the current
         generic environment binds to a workspace type: the impl for that type (static dispatch)."""
@@ -1134,10 +1186,7 @@ class Interp:
             tcr, tix = self.facts.crates[b[0]], b[1]
             if tcr.types[tix]["k"] == "param" and tcr.types[tix]["name"] == t["name"]:
                 return None
-        t = tcr.types[tix]
-        if t["k"] != "adt":
-            return None
-        cands = [im for im in c2.impls if im.get("trait") == tr and im.get("self_adt") == t["adt"]]
+        cands = self._impls_for_type(c2, tr, tcr.types[tix])
         if len(cands) != 1:
             return None
         for b in c2.bodies_of_impl(cands[0]):
